@@ -84,7 +84,7 @@ def compare_gap(f, exp):
     got = geometry(f)
     for k in ("seqid", "start", "end", "featuretype", "strand"):
         if got[k] != exp[k]:
-            return "%s differs" % ("coordinates" if k in ("start", "end") else k)
+            return "coordinates differ" if k in ("start", "end") else "%s differs" % k
     a = attrs_of(f)
     if exp.get("attrs") is not None:
         if a != exp["attrs"]:
